@@ -180,7 +180,7 @@ func TestC19(t *testing.T) {
 	st.Assumptions = append(baseAssumptions(), "panics documented for misuse of Assign*/AssignIndex targets are not provoked", "a call that does not return within 60 s on a database of < 20 objects is a hang")
 	prof := &Profile{
 		Property: "C19", MaxOps: pick(8, 16),
-		W: map[string]int{"insert": 9, "update": 3, "delete": 2, "many": 2, "query": 6},
+		W:          map[string]int{"insert": 9, "update": 3, "delete": 2, "many": 2, "query": 6},
 		AllowCache: true, AllowCompress: true, AllowAsync: true, AllowLower: true,
 		MaxIndexed: 4, MaxUnique: 1, CasePaths: 1,
 		TinyBias: 55, BigBias: 12, HookBias: 0, RichShape: 15, MaxLeaves: 2, BadQueryPct: 60,
